@@ -36,7 +36,7 @@ def run_block(V, rng, torch, torchtt, ttm, dist, n_pairs):
                 V.fail("mixed dtypes: %s raises %s" % (name, type(ex).__name__), dict(desc, exc=str(ex)[:200]))
         dist["mixed dtype pair"] = dist.get("mixed dtype pair", 0) + 1
     # scalars that are not exactly representable in single precision
-    for s in (0.1, -1.0 / 3.0, math.pi, torch.tensor(0.3, dtype=torch.float64), np.float64(0.7)):
+    for s in (0.1, -1.0 / 3.0, math.pi, torch.tensor(0.3, dtype=torch.float64), np.float64(0.7), np.int64(4), np.int32(-2), np.float32(0.5), np.uint8(2), np.float16(0.25)):
         for dt in (torch.float64, torch.complex128):
             d = rng.choice([1, 2, 3]); N = [rng.choice([1, 2, 3]) for _ in range(d)]; M = [rng.choice([1, 2]) for _ in range(d)]
             x = mk(dt, N, M, [1] + [rng.choice([1, 2]) for _ in range(d - 1)] + [1])
@@ -52,3 +52,20 @@ def run_block(V, rng, torch, torchtt, ttm, dist, n_pairs):
                 except Exception as ex:
                     V.fail("non-dyadic scalar: %s raises %s" % (name, type(ex).__name__), dict(desc, exc=str(ex)[:200]))
             dist["non-dyadic scalar"] = dist.get("non-dyadic scalar", 0) + 1
+    # complex scalars of every kind (python complex, numpy complex128 / complex64) on real and complex operands: the result is complex, the imaginary part counts
+    for s in (1 - 2j, np.complex128(2 - 1j), np.complex64(1 + 2j), np.complex64(-0.5j)):
+        for dt in (torch.float64, torch.complex128):
+            d = rng.choice([1, 2, 3]); N = [rng.choice([1, 2, 3]) for _ in range(d)]; M = [rng.choice([1, 2]) for _ in range(d)]
+            x = mk(dt, N, M, [1] + [rng.choice([1, 2]) for _ in range(d - 1)] + [1])
+            xf = x.full().to(torch.complex128).clone(); sv = complex(s)
+            for name, op in (("x*s", lambda u: u * s), ("s*x", lambda u: s * u), ("x+s", lambda u: u + s), ("s-x", lambda u: s - u), ("x/s", lambda u: u / s)):
+                desc = {"complex_scalar": True, "ttm": ttm, "op": name, "scalar": repr(s), "dtype": str(dt), "N": N, "M": M if ttm else None}
+                try:
+                    r = op(x)
+                    ref = {"x*s": xf * sv, "s*x": sv * xf, "x+s": xf + sv, "s-x": sv - xf, "x/s": xf / sv}[name]
+                    err = float((r.full().to(torch.complex128) - ref).abs().max()); scale = float(ref.abs().max()) + abs(sv)
+                    if not r.full().is_complex(): V.fail("complex scalar: %s on a %s operand returns a real result" % (name, "complex" if dt.is_complex else "real"), dict(desc, got=str(r.cores[0].dtype)))
+                    elif err > 1e-14 * scale: V.fail("complex scalar: %s differs from the dense result (imaginary part lost?)" % name, dict(desc, abs_err=err))
+                except Exception as ex:
+                    V.fail("complex scalar: %s raises %s" % (name, type(ex).__name__), dict(desc, exc=str(ex)[:200]))
+            dist["complex scalar"] = dist.get("complex scalar", 0) + 1
